@@ -7,7 +7,11 @@ for pid in sys.argv[1:]:
         out = "/tmp/mut/%s/OUT" % pid
         if not os.path.exists(os.path.join(out, "meta%s.json" % k)):
             print(pid, k, "no meta"); continue
-        v = json.loads(subprocess.run(["python3", "/verif/tools/validate_mutant.py", pid, k], stdout=subprocess.PIPE, text=True).stdout)
+        cached = os.path.join(out, "validation%s.json" % k)   # written by an earlier stand-alone validate_mutant.py run
+        if os.path.exists(cached):
+            v = json.load(open(cached))
+        else:
+            v = json.loads(subprocess.run(["python3", "/verif/tools/validate_mutant.py", pid, k], stdout=subprocess.PIPE, text=True).stdout)
         dst = "/verif/seeded/%s-%s%s" % (pid, os.environ.get("MUT_ROUND", ""), k)
         os.makedirs(dst, exist_ok=True)
         shutil.copy(os.path.join(out, "patch%s.diff" % k), os.path.join(dst, "patch.diff"))
